@@ -98,6 +98,81 @@ def huge_segment_case(run, rng, n=33200):
         w.close()
 
 
+def added_columns(run, rng, n):
+    """sorting.add_sortable(): columns added afterwards to the segments of an existing index (with deletions, also
+    of the last documents of a segment) hold each document's own value - read by document number, as sort key and
+    after a later merge."""
+    from whoosh import fields, sorting, query
+    from whoosh.filedb.filestore import RamStorage
+    cases = []
+    for i in range(n):
+        schema = fields.Schema(key=fields.ID(stored=True, unique=True), chap=fields.ID(stored=True),
+                               price=fields.NUMERIC(stored=True), body=fields.TEXT)
+        ix = RamStorage().create_index(schema)
+        obs = []
+        cfg = {"scenario": "add_sortable", "round": i}
+        try:
+            model, k = {}, 0
+            for seg in range(rng.choice([1, 2, 3])):
+                w = ix.writer()
+                segkeys = []
+                for _ in range(rng.randrange(3, 9)):
+                    key = u"k%02d" % k
+                    k += 1
+                    d = {"key": key, "body": u"xx"}
+                    if rng.random() < 0.85:
+                        d["chap"] = u"chapter-" + u"x" * rng.randrange(0, 6)
+                    if rng.random() < 0.85:
+                        d["price"] = rng.randrange(-5, 500)
+                    w.add_document(**d)
+                    model[key] = d
+                    segkeys.append(key)
+                w.commit(merge=False)
+                # deletions: the last documents of the segment, or one in the middle
+                dels = segkeys[-rng.randrange(1, 3):] if rng.random() < 0.6 else [segkeys[len(segkeys) // 2]]
+                if rng.random() < 0.8:
+                    w = ix.writer()
+                    for key in dels:
+                        w.delete_by_term("key", key)
+                        model.pop(key)
+                    w.commit(merge=False)
+            with ix.writer() as w:
+                sorting.add_sortable(w, "chap", sorting.StoredFieldFacet("chap"))
+                sorting.add_sortable(w, "price", sorting.FieldFacet("price"))
+                w.mergetype = None
+
+            def look(label):
+                with ix.searcher() as s:
+                    rd = s.reader()
+                    okc = okp = True
+                    cc, cp = rd.column_reader("chap"), rd.column_reader("price")
+                    for dn in rd.all_doc_ids():
+                        st = rd.stored_fields(dn)
+                        d = model[st["key"]]
+                        if "chap" in d and cc[dn] != d["chap"]:
+                            okc = False
+                        if "price" in d and cp[dn] != d["price"]:
+                            okp = False
+                    obs.append({"kind": "flag", "path": "%s: the added text column holds each document's own value" % label,
+                                "value": okc})
+                    obs.append({"kind": "flag", "path": "%s: the added numeric column holds each document's own value" % label,
+                                "value": okp})
+                    withp = sorted((d["price"], key) for key, d in model.items() if "price" in d)
+                    got = [h["key"] for h in s.search(query.Every(), limit=None, sortedby="price") if "price" in model[h["key"]]]
+                    obs.append({"kind": "flag", "path": "%s: sorting by the added column" % label,
+                                "value": [p for p, _ in withp] == [model[key]["price"] for key in got]})
+            look("after add_sortable")
+            w = ix.writer()
+            w.commit(optimize=True)
+            look("after a later optimize")
+        except Exception as ex:
+            obs.append({"kind": "error", "path": "add_sortable scenario", "err": type(ex).__name__, "msg": str(ex)[:160],
+                        "where": content.where(ex)})
+        run.count(len(obs))
+        cases.append({"idx": {"docs": []}, "obs": obs, "cfg": cfg, "plan": None, "adocs": None})
+    return cases
+
+
 def check(run):
     quick = run.tier == "quick"
     rng = random.Random(run.seed + 808)
@@ -108,7 +183,7 @@ def check(run):
                 "stored_fields / column_reader / Hit[field] judged by ContentCheck.tla; non-trivial = accepted "
                 "configuration with >= 3 documents")
     cases = []
-    rounds = [(12, False)] * (3 if quick else 12) + [(60 if quick else 420, True)] * (1 if quick else 2)
+    rounds = [(12, False)] * (3 if quick else 12) + [(360 if quick else 420, True)] * (1 if quick else 2)
     for rnd, (n, big) in enumerate(rounds):
         keys = ["k%d" % i for i in range(n)]
         adocs = dict((k, cworld.rand_adoc(rng, k)) for k in keys)
@@ -116,12 +191,20 @@ def check(run):
             # many distinct reference values (> 256) and long variable values (offsets > 2^16)
             for i, k in enumerate(keys):
                 d = adocs[k]
-                if i % 4 != 3:
+                # (every seventh document has no reference value - also after the 256th distinct value has
+                # been seen, from where on the references take two bytes)
+                d["c"].pop("cref", None)
+                if i % 7 != 6:
                     d["c"]["cref"] = 6 + (i % 300)
                 if i % 3 != 2:
                     d["c"]["cvar"] = 4                   # a 400 byte value
                     d["c"]["ccomp"] = 4
         plan = world.rand_plan(rng, keys, max_segments=4)
+        if big:
+            # (one segment has to hold them, written directly: a merge writes a value - the default - for every
+            # document; a second, small commit merges everything or stays apart)
+            cut = len(keys) - 6
+            plan = [("commit", keys[:cut], {"merge": False}), ("commit", keys[cut:], {"optimize": rnd % 2 == 0, "merge": False})]
         if rnd % 3 == 1 and not big:
             # segments that have no file at all for some (or any) column, next to segments that do: the documents
             # of the last commits carry no column values, and nothing merges them
@@ -194,6 +277,7 @@ def check(run):
                   "obs": [{"kind": "flag", "path": "_stored_body value is what comes back", "value": got == {"a": u"what is stored", "b": u"plain"}},
                           {"kind": "flag", "path": "the document is found by its indexed text", "value": found == ["a"]}]})
     cases += failed_add_case(rng)
+    cases += added_columns(run, rng, 6 if quick else 40)
     rejects = content.judge(run, cases, chunk=4)
     content.report(run, "c08", cases, rejects)
 
